@@ -67,7 +67,7 @@ OPS = {"$lt": lambda a, b: a < b, "$lte": lambda a, b: a <= b, "$gt": lambda a, 
 
 
 def S(kind, i, sub=""):
-    return {"acc": f"ACC#{i}{sub}", "seg": f"SEG#{i}{sub}", "mv": f"MV#{i}", "ast": f"AST#{i}", "ref": f"REF#{i}", "num": str(700000000 + 10 * i + (1 if sub else 0)),
+    return {"acc": f"ACC#{i}{sub}", "seg": f"SEG#{i}{sub}", "mv": f"MV#{i}", "ast": f"AST#{i}", "ref": f"REF#{i}{sub}", "num": str(700000000 + 10 * i + (1 if sub else 0)),
             "date": f"2002-02-{i + 1:02d}T00:00:01Z"}[kind]
 
 
@@ -115,6 +115,8 @@ def leaf_json(leaf, i):
         return {leaf["op"]: {leaf["col"]: int(S("num", i))}}
     if k == "str":
         return {"$match": {leaf["col"]: S("ref", i)}}
+    if k == "str_in":
+        return {"$in": {leaf["col"]: [S("ref", i), S("ref", i, "b")]}}
     if k == "reverted":
         return {"$match": {"reverted": leaf["value"]}}
     raise ValueError(k)
@@ -157,6 +159,11 @@ def leaf_ref(leaf, i, ent, P):
         if isinstance(v, V):
             return T3(z3.And(z3.Not(v.null), v.z == P[S("ref", i)]), v.null)
         return T3(v == P[S("ref", i)])
+    if k == "str_in":
+        v = ent[leaf["col"]]
+        if isinstance(v, V):
+            return T3(z3.And(z3.Not(v.null), z3.Or(v.z == P[S("ref", i)], v.z == P[S("ref", i, "b")])), v.null)
+        return T3(z3.Or(v == P[S("ref", i)], v == P[S("ref", i, "b")]))
     if k == "reverted":
         r = ent["reverted_at"]
         isrev = z3.Not(r.null)
@@ -218,7 +225,7 @@ def family(resource, tier):
         leaves += [L(kind="addr", key="account", role="account", form="in"), L(kind="addr", key="source", role="source", form="in"), L(kind="addr", key="destination", role="destination", form="a::c")]
         leaves += [L(kind="num", col="id", op="$gte"), L(kind="num", col="id", op="$match"), L(kind="str", col="reference"), L(kind="date", col="timestamp", op="$lt"),
                    L(kind="date", col="inserted_at", op="$gte"), L(kind="date", col="updated_at", op="$lte"), L(kind="reverted", value=True), L(kind="reverted", value=False),
-                   L(kind="date", col="reverted_at", op="$lt"), L(kind="meta", mk=1), L(kind="meta_exists", mk=1)]
+                   L(kind="date", col="reverted_at", op="$lt"), L(kind="meta", mk=1), L(kind="meta_exists", mk=1), L(kind="str_in", col="reference")]
         deep = [leaves[0], leaves[4], leaves[21], leaves[18]]
     elif resource == "volumes":
         leaves = [L(kind="addr", key="account", form=f) for f in ("exact", "in", "a:", ":b", "a::c", "a:...")] + [L(kind="addr", key="address", form="a:")]
@@ -228,7 +235,7 @@ def family(resource, tier):
         leaves = [L(kind="addr", key="address", form=f) for f in ("exact", "in", "a:", ":b", "a::c", "a:...")] + [L(kind="meta", mk=1), L(kind="meta_exists", mk=2)]
         deep = [leaves[2], leaves[5], leaves[6], leaves[0]]
     elif resource == "logs":
-        leaves = [L(kind="num", col="id", op="$gt"), L(kind="num", col="id", op="$match"), L(kind="date", col="date", op="$lte"), L(kind="str", col="type")]
+        leaves = [L(kind="num", col="id", op="$gt"), L(kind="num", col="id", op="$match"), L(kind="date", col="date", op="$lte"), L(kind="str", col="type"), L(kind="str_in", col="type")]
         deep = leaves[:3]
     else:
         raise ValueError(resource)
@@ -247,6 +254,7 @@ def make_ctx(K, features, nleaves):
         P[S("mv", i)] = z3.String(f"p.mv{i}")
         P[S("ast", i)] = z3.String(f"p.ast{i}")
         P[S("ref", i)] = z3.String(f"p.ref{i}")
+        P[S("ref", i, "b")] = z3.String(f"p.ref{i}b")
         P[S("num", i)] = z3.Int(f"p.num{i}")
         P[S("date", i)] = z3.Int(f"p.date{i}")
     for k, v in P.items():
